@@ -347,7 +347,11 @@ class History:
                 if self.nmsg < p.max_msgs and o < p.p_new:
                     self.newmsg()
                 elif o < p.p_new + p.p_alrm:
-                    sim.signal("ALRM")
+                    if not sim.outstanding and rng.random() < 0.4:
+                        sim.signal_late("ALRM")     # arrives when the daemon has just left select (no pass can be open now)
+                        self.res.counters.inc("alrm_outside_select")
+                    else:
+                        sim.signal("ALRM")
                 elif o < p.p_new + p.p_alrm + p.p_hup:
                     sim.signal("HUP")
                 elif o < p.p_new + p.p_alrm + p.p_hup + p.p_term_restart:
